@@ -1075,6 +1075,12 @@ def r_dtype_default_buffer(ctx, f: FunctionInfo, param: str, rule="R-DTYPE"):
     n_recv = 0
     bad = None
     for n in walk_no_nested(f.node):
+        # in-place accumulation into the buffer: numpy refuses (or truncates) when the increment is complex
+        if isinstance(n, ast.AugAssign) and isinstance(n.target, ast.Name) and n.target.id in bufs and og.derives_from(n.value, param):
+            n_recv += 1
+            for alloc, ok in bufs[n.target.id]:
+                if not ok:
+                    bad = (n, alloc)
         if isinstance(n, ast.Assign) and isinstance(n.targets[0], ast.Subscript):
             b = n.targets[0].value
             while isinstance(b, ast.Subscript):
